@@ -41,6 +41,8 @@ CHECKS = {
              text="For all 24 exported distributions and user-wrapped tfp_distribution/distribution instances: logpdf equals the log density of the documented TFP object built with the documented parameter NAMES (argument wiring: probs vs logits, rate vs scale, alpha vs beta; swapped-parameter twins must be refuted), with the documented shape/dtype; closed forms for normal, exponential, uniform, flip, gamma, categorical, geometric (counts failures), binomial; sum of exp(logpmf) == 1 in the solver for flip, bernoulli, categorical K<=3, binomial n<=3; the seeded sampler (scalar, sample_shape, modular_vmap) equals the documented TFP sampler on the site's own sub-key for the 15 families without a rejection loop, shape/dtype/key provenance for the other 9.", ref="3 C13"),
  "C15": dict(technique="Jaxpr-to-SMT encoding of expectation(f).jvp_estimate/grad_estimate/estimate vs jax.jvp/jax.grad/f (z3 equality queries with shared uninterpreted transcendentals)",
              text="For 22 deterministic programs (arithmetic, transcendental, indexing/slicing/gather, reductions, dot/matmul/transpose, integer/boolean intermediates, dtype conversions, where, cond with either branch; scalar, array and pytree arguments) the primal, tangent and gradient terms of the ADEV transformation are proved equal to JAX's for ALL inputs and tangents, with equal shapes/dtypes; tracing must succeed for every argument shape (estimate included).", ref="3 C15"),
+ "C11": dict(technique="Jaxpr-to-SMT encoding of ADEV estimate/jvp_estimate/grad_estimate (z3): enumeration vs exact finite sums, pathwise derivative identities, probability-weighted sums over discrete outcomes",
+             text="For expectation programs over every primitive family: enumeration primitives (flip_enum, flip_enum_parallel, categorical_enum_parallel) give the exact expectation and derivative and do not depend on any outcome (zero variance); reparameterised primitives (normal, uniform, mvn-diag) give exactly d/dtheta f(g(noise;theta),theta) for the drawn noise and the noise site is theta-independent N(0,1)/U(0,1); discrete score-function / measure-valued primitives (flip_reinforce, flip_mvd, batched lane-wise variants) average over all outcomes to the exact derivative (rational identity over theta in (0,1)); normal_reinforce has the score-function form; compositions, cond continuations, and the same under jit(seed(.)) and modular_vmap.", ref="3 C11"),
 }
 NA = {}
 
